@@ -32,7 +32,7 @@ def runner(prop, fam, tier, seed, replay=None):
     # corpus statistics of the last explorer run (kept by vcheck.cleanup under .work/last-<prop>/)
     try:
         sp = os.path.join(vcheck.WORK, "last-" + prop, "explore__stats.json")
-        ep = os.path.join(vcheck.VERIF, "evidence", prop + ".json")
+        ep = vcheck.evidence_path(prop)
         st = json.load(open(sp))
         ev = json.load(open(ep))
         st.pop("panics", None)
